@@ -127,6 +127,7 @@ fn main() {
         }
         Some("c12-fresh") => c12::fresh_main(args[1].parse().unwrap()),
         Some("debug-c13-seeds") => c13::debug_seeds(),
+        Some("dump-mini") => { for c in c01::all_cases(Tier::Thorough) { if c.name == args[1] { println!("{}", mini::pprog(&c.prog)); } } }
         Some("dump-snip") => {
             for s in exec::snippets(Tier::Thorough) {
                 if s.name == args[1] {
@@ -152,7 +153,11 @@ fn main() {
         Some("debug-gas") => {
             let code = std::fs::read_to_string(&args[1]).unwrap();
             let mut dbs = exec::Dbs::default();
-            let cfg = if std::env::var("VERIF_CFG").as_deref() == Ok("disabled") { pipe::Cfg::BASELINE } else { pipe::Cfg::DEFAULT };
+            let cfg = match std::env::var("VERIF_CFG").as_deref() {
+                Ok("disabled") => pipe::Cfg::BASELINE,
+                Ok(name) => pipe::Cfg::full().into_iter().find(|c| c.name() == name).expect("config name"),
+                _ => pipe::Cfg::DEFAULT,
+            };
             let prog = dbs.compile(&cfg, &code).unwrap();
             let c = pipe::make_runner(prog.clone(), &cfg).unwrap();
             for f in &prog.funcs {
